@@ -194,7 +194,13 @@ func (jenny RawTypes) defaultValuesForStructType(structType ast.Type, packageMap
 				defaults.Set(field.Name, jenny.defaultValuesForReference(field.Type, packageMapper))
 				continue
 			case ast.KindStruct:
-				defaultMap := field.Type.Default.(map[string]interface{})
+				defaultMap, ok := field.Type.Default.(map[string]interface{})
+				if !ok {
+					// not an object: the default can't be applied to a struct
+					defaults.Set(field.Name, jenny.defaultValueForStructs(field.Type.AsStruct(), orderedmap.New[string, any]()))
+					continue
+				}
+
 				defaults.Set(field.Name, jenny.defaultValueForStructs(field.Type.AsStruct(), orderedmap.FromMap(defaultMap)))
 				continue
 			default:
